@@ -96,6 +96,9 @@ var c15Dual = []c15Op{
 	{"a.push(b.nokey)", func(func() Expr) Expr { return CallE(Mem(av(), "push"), Mem(bv(), "nokey")) }},
 	{"a[-1]=9", func(func() Expr) Expr { return Asg("=", Idx(av(), Un("-", N("1"))), N("9")) }},
 	{"a[1]=8", func(func() Expr) Expr { return Asg("=", Idx(av(), N("1")), N("8")) }},
+	// the method acts on the array it was invoked on, also when the argument list assigns the variable that held it
+	{"a.push(a=[9])", func(func() Expr) Expr { return CallE(Mem(av(), "push"), Asg("=", av(), Arr_(N("9")))) }},
+	{"a.contains(a=b)", func(func() Expr) Expr { return CallE(Mem(av(), "contains"), Asg("=", av(), bv())) }},
 }
 
 // operations on an array with unset elements; they print only booleans and
@@ -253,7 +256,7 @@ func init() {
 		ID: "C15",
 		Rule: "all sequences of exactly D operations (every shorter history is a prefix of one of them, and a run prints result, contents and length after each operation) over 22 operations on one array " +
 			"(push of a number / string / array / unset value, pop, popfirst, reads and writes at 0, -1 and length, length, contains of a number / string / unset value, sort, a push / index store into the result of sort, and a push of the null read from beyond the end), with the array held by a variable, inside the input document ($.arr, also compared through -o), inside an object (o.k), inside another array (m[0]) as a literal rebuilt for every element of the input, as $.t of every record of a document with several empty arrays and as $.arr of every value of a stream (shorter histories); 44 fixed arrays of 5-40 elements with equal sort keys but distinguishable values (stability at every length);  " +
-			"deeper histories over the 11 length-changing and indexing operations; all sequences over 11 operations on an array with unset elements (observed through booleans and numbers only); and all sequences over 18 operations on two arrays including calls nested in each other's arguments and aliasing; histories are not merged (slice capacity is hidden state); oracle: ideal list in the reference interpreter; " +
+			"deeper histories over the 11 length-changing and indexing operations; all sequences over 11 operations on an array with unset elements (observed through booleans and numbers only); and all sequences over 20 operations on two arrays including calls nested in each other's arguments and aliasing; histories are not merged (slice capacity is hidden state); oracle: ideal list in the reference interpreter; " +
 			"a state is a distinct model list reached; non-trivial = same",
 		Plan: func(t fw.Tier) int { return len(c15Units(t)) },
 		Bound: func(t fw.Tier) string {
